@@ -119,7 +119,8 @@ class Doc(object):
                 if r.random() < 0.6:
                     self.sub(s, 'format', r.choice(['A8R8G8B8', 'R8G8B8']))
                 sid2 = self.uid('samp')
-                np2 = self.sub(holder, 'newparam', sid=sid2)
+                # (the sampler may sit in the technique while its surface is a parameter of the profile)
+                np2 = self.sub(holder if r.random() < 0.8 else tec, 'newparam', sid=sid2)
                 s2 = self.sub(np2, 'sampler2D')
                 self.sub(s2, 'source', sid)
                 if r.random() < 0.5:
